@@ -25,10 +25,10 @@ from core import enc_bool, enc_str
 PROPERTY = "C03"
 
 # CODE VARIANT FLAGS — the variant of the code the model is compared with (RVariant in Model/AnsiRender.lean,
-# Cfg in Model/Color.lean).  Values match TODAY's /repo.
-# (For checking a pending fix:  VERIF_REPO=<worktree> VERIF_C03_FLAGS=<3 digits> ./check C03  overrides them for one run.)
-ANSI_CACHE_UNKEYED = 0    # 1: Style._make_ansi_codes returns self._ansi whatever colour system it was computed for (F7). 0: repaired.
-STYLED_CONTROL_KEPT = 0   # 1: _render_buffer writes a *styled* control segment to a non-terminal (F27). 0: repaired.
+# Cfg in Model/Color.lean).  Values match /repo as it is now: all three defects are repaired (1 = rich 9.10.0 as found).
+# (For checking another checkout:  VERIF_REPO=<worktree> VERIF_C03_FLAGS=<3 digits> ./check C03  overrides them for one run.)
+ANSI_CACHE_UNKEYED = 0    # 1: Style._make_ansi_codes returns self._ansi whatever colour system it was computed for (F7). 0: repaired (fix c9ec5a8).
+STYLED_CONTROL_KEPT = 0   # 1: _render_buffer writes a *styled* control segment to a non-terminal (F27). 0: repaired (fix 23674a1).
 STD_VIA_PALETTE = 0       # C18's flag: 0 = downgrade(STANDARD) keeps indices < 16 (fix 2cec9e1 is in /repo)
 
 if os.environ.get("VERIF_C03_FLAGS"):
@@ -932,8 +932,9 @@ MANIFEST = {
     "new styles, copy(), update_link(), _render_buffer on consoles of changing configuration and direct Style.render calls (the cache is state; "
     "invariant: every cache entry is what would be computed afresh for the colour system it is tagged with). colour_none_no_escape, "
     "no_color_no_colour_params hold for both code variants; not_terminal_no_control at the level of what is shown, and token-for-token outside "
-    "the NO_COLOR path (_partial). Proved for the repaired code; old_stale_ansi_cache / old_history_violates / old_styled_control_written are "
-    "machine-checked witnesses that today's code violates them. Tie: ~27k (quick) / ~600k (thorough) requests per run, each a whole history "
+    "the NO_COLOR path (_partial). Proved for the repaired code, which is what /repo contains now (fixes c9ec5a8, 23674a1); old_stale_ansi_cache / "
+    "old_history_violates / old_styled_control_written / old_not_terminal_violates are machine-checked witnesses that rich 9.10.0 as found "
+    "(before those fixes) violated them. Tie: ~27k (quick) / ~600k (thorough) requests per run, each a whole history "
     "executed on real rich (Console._render_buffer, console.print, console.capture, Style.render; consoles built explicitly and through the "
     "option handling of Console.__init__ — NO_COLOR, isatty, colour system 'auto' from TERM/COLORTERM) and on the model, compared in four views "
     "(characters, tokens, interpreter run, specification), plus the theorems' executable statements evaluated on rich's own output with a "
